@@ -105,6 +105,20 @@ earlier targets regenerate byte for byte):
       function) is threaded through the statements in execution order, belongs to the state of every loop / merged `if` whose body
       draws, and is returned with the result; None = the draw does not return.  A draw inside a closure, a value `if` or an
       `&&` / `||` operand is refused (the order of the draws would not be the statement order).
+FOURTH ROUND (definitions in Base/RsExprFour.v; opt-in through the target's Config / Parser, so that the files of the earlier targets
+regenerate byte for byte):
+  floats  (cfg.float_classify) `x.is_infinite()` -> rs_is_infinite O x = (x == inf) | (x == -inf), as core writes it
+  newtype (cfg.newtype_index) `self[i]` in a method of a newtype around Vec<f64> (cfg.newtype_self) goes through Deref: rs_get self_ i
+  chains  (cfg.iter_all) `it.all(|p| c)` -> forallb, for a closure to bool that cannot panic; (cfg.option_as_ref) `opt.as_ref()` is opt
+  calls   (cfg.field_methods: (field, method) -> key of cfg.calls) `self.f.m(args)` for a field f the translator does not model: an abstract
+          parameter (an argument-less pure method is a value); (cfg.abstract_self_methods: m -> (parameter, [arg types], result type))
+          `self.m(args)` for a method kept abstract: the parameter takes the receiver as a struct VALUE, then the arguments;
+          (cfg.list_methods) `v.m(args)` on a list-typed receiver for a method of the list-like newtype kept abstract (`Vector::prod`)
+  results `function(.., result="outparams")`: a function that works through its `&mut [f64]` parameters and returns nothing is rendered as
+          the value of those parameters after the call (it is not registered in cfg.defs: a call of it from translated code stays refused)
+  `?`     (Parser.try_op) `Result<T, &str>` is an option VALUE like `Result<T, String>`; `e?` on an Option / Result value is bound in
+          evaluation order like a hoisted sub-expression, and `None` / `Err(_)` RETURNS `None` from the function (an early return, not a
+          panic): `match e with Some q => .. | None => <return None> end`; refused inside a closure, a value block / `if`, an `&&` / `||` operand
 """
 import os, re, sys
 from fractions import Fraction
@@ -225,7 +239,16 @@ BINPREC = {"||": 1, "&&": 2, "==": 3, "!=": 3, "<": 3, ">": 3, "<=": 3, ">=": 3,
 AS_PREC = 10
 
 
+class TryOpt(str):
+    """the operand of a `?` waiting in the list of hoisted sub-expressions: an Option / Result VALUE whose `None` / `Err(_)` is returned by the
+       enclosing function (not a panic); `refuse` is the error to raise where an early return cannot be rendered"""
+    refuse = None
+    env = None
+    where = None
+
+
 class Parser:
+    try_op = False      # (fourth round) `e?` is parsed only for a target that opts in
     closure_assign = False      # see parse_primary (closures)
 
     def __init__(self, src, lo=0, hi=None):
@@ -544,7 +567,9 @@ class Parser:
                 rb = self.expect("]")
                 e = N("index", e.pos, rb.end, recv=e, idx=idx)
             elif self.at("?"):
-                raise self.fail(self.peek(), "`?` is outside the subset")
+                if not Parser.try_op: raise self.fail(self.peek(), "`?` is outside the subset")
+                q = self.next()
+                e = N("try", e.pos, q.end, e=e)
             else:
                 return e
 
@@ -1428,6 +1453,7 @@ LOOP_RESERVED = {
     "upd", "guard", "map2", "pair", "nil", "cons",
     "rs_set_len", "rs_swap", "rs_f64_epsilon", "rs_while", "rs_repeat", "uninit_", "fuel_", "Some", "None", "option",
     "rs_as_i64", "rs_split_at", "rs_split_first", "rng_", "St_",
+    "rs_is_infinite",
 }
 
 
@@ -1490,6 +1516,9 @@ class Ctx:
         raise NeedMode("opt")
 
     def bind(self, pat, opt, body):
+        if isinstance(opt, TryOpt):
+            # `e?`: `None` / `Err(_)` leaves the function with that value (an early `return`, not a panic)
+            return f"match {opt} with Some {pat.lstrip(chr(39))} => {body} | None => {self.ret(opt.env, ('None', ('opt', None)), opt.where)} end"
         if self.mode == "opt": return f"let* {pat.lstrip(chr(39))} := {opt} in {body}"
         if self.mode == "flow": return f"match {opt} with Some {pat.lstrip(chr(39))} => {body} | None => rs_panic end"
         raise NeedMode("opt")
@@ -1540,6 +1569,7 @@ class LoopTranslator(Translator):
         ty = re.sub(r"\bmut\s+", "", ty)
         ty = ty.replace(" ", "")
         ty = re.sub(r"'\w+", "", ty)
+        if getattr(self, "result_mode", None) == "outparams" and ty.startswith("&mut["): ty = ty[4:]      # `&mut [f64]`: see `function`
         while ty.startswith("&"): ty = ty[1:]
         if ty in self.cfg.param_types: return self.cfg.param_types[ty]
         if ty in self.generic_bounds: return self.generic_bounds[ty]
@@ -1551,7 +1581,7 @@ class LoopTranslator(Translator):
         if m: return ("list", self.ty_of_rust(m.group(1), node))
         m = re.fullmatch(r"\[(.*);\w+\]", ty)
         if m: return ("list", self.ty_of_rust(m.group(1), node))
-        m = re.fullmatch(r"Option<(.*)>", ty) or re.fullmatch(r"Result<(.*),String>", ty)
+        m = re.fullmatch(r"Option<(.*)>", ty) or re.fullmatch(r"Result<(.*),String>", ty) or (Parser.try_op and re.fullmatch(r"Result<(.*),&str>", ty))
         if m: return ("opt", self.ty_of_rust(m.group(1), node))
         if ty.startswith("(") and ty.endswith(")"):
             parts, depth, cur = [], 0, ""
@@ -1585,8 +1615,15 @@ class LoopTranslator(Translator):
         return r, bs
 
     @staticmethod
+    def no_try(o):
+        if isinstance(o, TryOpt): raise o.refuse
+        return o
+
+    @staticmethod
     def bind_chain(binds, inner):
-        for pat, opt in reversed(binds): inner = f"let* {pat.lstrip(chr(39))} := {opt} in {inner}"
+        for pat, opt in reversed(binds):
+            if isinstance(opt, TryOpt): raise opt.refuse
+            inner = f"let* {pat.lstrip(chr(39))} := {opt} in {inner}"
         return inner
 
     def hoist(self, opt, base="g"):
@@ -1722,6 +1759,15 @@ class LoopTranslator(Translator):
             if not self.same_type(ta, tb): raise self.fail(e, "branches of different types")
             if not ba and not bb: return f"(match {o} with Some {nm} => {a} | None => {b} end)", ta
             return self.hoist(f"(match {o} with Some {nm} => {self.bind_chain(ba, f'Some ({a})')} | None => {self.bind_chain(bb, f'Some ({b})')} end)"), ta
+        if k == "try":
+            # `e?` on an Option / Result value (Parser.try_op): bound like a hoisted sub-expression, in evaluation order; `None` returns `None`
+            o, to = self.expr(e.e, env)
+            if to[0] != "opt" or to[1] is None: raise self.fail(e, "`?` on something that is not an Option / Result value")
+            g = self.fresh("q")
+            t_ = TryOpt(f"({o})"); t_.env, t_.where = env, e
+            t_.refuse = self.fail(e, "`?` inside a closure, a value block / `if` or an `&&` / `||` operand is outside the subset (only in a statement of the function body)")
+            self.binds[-1].append((g, t_))
+            return g, to[1]
         if k == "block": return self.value_block(e, env)
         if k == "match": raise self.fail(e, "`match` is outside the subset")
         if k == "range": raise self.fail(e, "a range is only supported as an iterator (`for i in a..b`, `(a..b).map(..)`) or a slice index")
@@ -1757,19 +1803,19 @@ class LoopTranslator(Translator):
             if s.kind == "semi" and s.e.kind == "assert":
                 (v, t), bs = self.scoped(lambda: self.expr(s.e.cond, env))
                 if t != "b": raise self.fail(s, "condition is not a boolean")
-                parts += [("bind", p, o) for p, o in bs]
+                parts += [("bind", p, self.no_try(o)) for p, o in bs]
                 parts.append(("bind", "_", f"guard ({v})")); continue
             if s.kind != "let" or any(q[0] == "var" and q[2] for q in self.flat_pats(s.pattern)):
                 raise self.fail(s, "statement inside a value block (only immutable `let` is allowed there)")
             (v, t), bs = self.scoped(lambda: self.expr(s.e, env))
-            parts += [("bind", p, o) for p, o in bs]
+            parts += [("bind", p, self.no_try(o)) for p, o in bs]
             if s.ty is not None:
                 if not self.same_type(self.ty_of_rust(s.ty, s), t): raise self.fail(s, "declared type differs from the inferred one")
                 t = self.ty_of_rust(s.ty, s)
             parts.append(("let", self.pattern(s.pattern, t, env, s), v))
         if b.tail is None: raise self.fail(b, "block without a value")
         (v, t), bs = self.scoped(lambda: self.expr(b.tail, env))
-        parts += [("bind", p, o) for p, o in bs]
+        parts += [("bind", p, self.no_try(o)) for p, o in bs]
         partial = any(p[0] == "bind" for p in parts)
         inner = f"Some ({v})" if partial else v
         for kind, pat, val in reversed(parts):
@@ -1908,7 +1954,8 @@ class LoopTranslator(Translator):
                 if u not in self.used_calls: self.used_calls.append(u)
             s_ = f"{term} " + " ".join([f"({env[rv.segs[0] + '.' + f[5:]][0]})" for f in fields] + self.args_of(e, [e.idx], argt))
             return (self.hoist(f"({s_})", "r") if partial else f"({s_})"), rt
-        if rv.kind == "path" and rv.segs == ["self"]:
+        if rv.kind == "path" and rv.segs == ["self"] and not (getattr(self.cfg, "newtype_index", False) and env.get("self", ("", ""))[1][:1] == ("list",)):
+            # (cfg.newtype_index: `self[i]` in a method of a newtype around Vec<f64> goes through Deref to the wrapped Vec, like `self.len()`)
             if "self.index" not in self.cfg.defs or e.idx.kind in ("range", "array"): raise self.fail(e, "`self[..]` is only supported as `self[i]` through a translated `Index<usize>::index`")
             return self.apply(e, "self.index", [e.idx], env)
         r, tr = self.expr(e.recv, env)
@@ -1998,6 +2045,15 @@ class LoopTranslator(Translator):
             l, t = self.iter_of(e.recv, env)
             return f"rs_split_first ({l})", ("opt", ("tup", (t, ("list", t))))
         if recv.kind == "path" and recv.segs == ["self"] and "self" not in env: return self.self_call(e, env)
+        if recv.kind == "field" and recv.recv.kind == "path" and recv.recv.segs == ["self"] and (recv.name, name) in getattr(self.cfg, "field_methods", {}):
+            # `self.f.m(args)` for a field f the translator does not model: the method is an abstract parameter (cfg.field_methods: (f, m) -> call-table key)
+            key = self.cfg.field_methods[(recv.name, name)]
+            cq, argt, rt = self.cfg.calls[key]
+            if not argt and not args and not isinstance(rt, tuple):      # an argument-less pure method: a value that depends on the field only
+                if cq not in self.used_calls: self.used_calls.append(cq)
+                return cq, rt
+            r = self.apply(e, key, args, env)
+            if r is not None: return r
         r = self.value_method(e, env)
         if r is not None: return r
         if name in ("clone", "to_owned") and not args and recv.kind == "path" and len(recv.segs) == 1 and env.get(recv.segs[0], ("",))[0] == "<struct>":
@@ -2016,6 +2072,12 @@ class LoopTranslator(Translator):
         if name == "len" and not args:
             l, t = self.iter_of(e.recv, env)
             return f"rs_len ({l})", "i"
+        if name == "all" and len(args) == 1 and getattr(self.cfg, "iter_all", False):
+            # `it.all(|p| c)`: forallb (short-circuit evaluation is unobservable for a closure that cannot panic)
+            l, t = self.iter_of(e.recv, env)
+            f, tr_, partial = self.closure_fn(args[0], [t], env)
+            if partial or tr_ != "b": raise self.fail(e, "`.all(..)`: a closure to bool that cannot panic expected")
+            return f"forallb ({f}) ({l})", "b"
         if name in self.ITER_ID + ("zip", "enumerate", "rev", "take", "skip", "map") :
             l, t = self.iter_of(e, env)
             return l, ("list", t)
@@ -2024,8 +2086,19 @@ class LoopTranslator(Translator):
             # `None` / `Err(_)` panics
             if tr[1] is None: raise self.fail(e, "`.unwrap()` of a bare `None`")
             return self.hoist(r, "u"), tr[1]
+        if tr[0] == "opt" and name == "as_ref" and not args and getattr(self.cfg, "option_as_ref", False):
+            return r, tr      # `opt.as_ref()`: references are transparent
         if tr[0] == "opt" and name in ("is_none", "is_some") and not args:
             return f"(match {r} with Some _ => {'false' if name == 'is_none' else 'true'} | None => {'true' if name == 'is_none' else 'false'} end)", "b"
+        if tr[0] == "list" and name in getattr(self.cfg, "list_methods", {}):
+            # `v.m(args)` for a method of the list-like newtype (`Vector::prod`) the target keeps abstract (cfg.list_methods: m -> (parameter, [arg types], result type))
+            cq, argt, rt = self.cfg.list_methods[name]
+            self._env = env
+            if cq not in self.used_calls: self.used_calls.append(cq)
+            if cq not in [c[0] for c in self.cfg.calls.values()]: self.cfg.calls["<list>" + name] = (cq, [tr] + list(argt), rt)
+            s_ = f"{cq} ({r}) " + " ".join(self.args_of(e, args, argt))
+            if rt[0] == "opt": return self.hoist(f"({s_})", "r"), rt[1]
+            return f"({s_})", rt
         if tr[0] == "list" and name == "repeat" and len(args) == 1:
             a, ta = self.expr(args[0], env)
             if not is_int(ta): raise self.fail(e, "`.repeat(n)`: an integer count expected")
@@ -2047,6 +2120,8 @@ class LoopTranslator(Translator):
         if name in F1 and not args: return f"f1 O {F1[name]} ({r})", "f"
         if name == "sqrt" and not args: return f"sqrt O ({r})", "f"
         if name == "abs" and not args: return f"abs O ({r})", "f"
+        if name == "is_infinite" and not args and getattr(self.cfg, "float_classify", False):
+            return f"rs_is_infinite O ({r})", "b"      # core: (self == INFINITY) | (self == NEG_INFINITY)
         if name == "powi" and len(args) == 1:
             a, ta = self.expr(args[0], env)
             if not is_int(ta): raise self.fail(args[0], "powi exponent must be an integer expression")
@@ -2225,6 +2300,17 @@ class LoopTranslator(Translator):
 
     def self_call(self, e, env):
         key = "self." + e.name
+        if e.name in getattr(self.cfg, "abstract_self_methods", {}) and key not in self.cfg.defs:
+            # `self.m(args)` for a method the target keeps abstract (cfg.abstract_self_methods: m -> (Gallina parameter, [arg types], result
+            # type)): the parameter takes the receiver as a struct VALUE (all its fields), then the arguments
+            cq, argt, rt = self.cfg.abstract_self_methods[e.name]
+            r, tr = self.struct_value(e.recv, env)
+            self._env = env
+            if cq not in self.used_calls: self.used_calls.append(cq)
+            if cq not in [c[0] for c in self.cfg.calls.values()]: self.cfg.calls["<self>" + e.name] = (cq, [tr] + list(argt), rt)
+            s_ = f"{cq} ({r}) " + " ".join(self.args_of(e, e.args, argt))
+            if rt[0] == "opt": return self.hoist(f"({s_})", "r"), rt[1]
+            return f"({s_})", rt
         if e.name in getattr(self.cfg, "mut_methods", set()):
             raise self.fail(e, f"`self.{e.name}(..)` mutates `self`: only supported as a statement (or ending a `&mut self` method)")
         r = self.apply(e, key, e.args, env) if (key in self.cfg.defs or key in self.cfg.calls) else None
@@ -2331,7 +2417,7 @@ class LoopTranslator(Translator):
     def stmt_value(self, e, env, K, k):
         """evaluate expression e in its own scope, then continue with k((term, type)); its panics go to K"""
         (v, t), bs = self.scoped(lambda: self.expr(e, env))
-        if bs and K.mode in ("total", "pure"): raise NeedMode("opt")
+        if any(not isinstance(o, TryOpt) for _, o in bs) and K.mode in ("total", "pure"): raise NeedMode("opt")
         return self.flush(bs, k((v, t)), K)
 
     def seq(self, stmts, tail, env, K, where):
@@ -2855,9 +2941,11 @@ class LoopTranslator(Translator):
                     continue
                 nm = self.ident(f); env["self." + f] = (nm, t); binders.append((nm, t)); fields.append("self." + f)
         prefix = ""
+        outparams = []
         for p, ty, tok in fn.params:
             t = self.ty_of_rust(ty, tok); nm = self.ident(p, env, p)
             env[p] = (nm, t); binders.append((nm, t))
+            if result == "outparams" and re.sub(r"\s+", "", ty).startswith("&mut"): outparams.append(p)
             if t[0] == "struct": prefix += f"let {self.bind_struct(p, t, env)} := {nm} in "
         self.used_draws = []
         threaded = self.has_draw(fn.body)
@@ -2870,6 +2958,13 @@ class LoopTranslator(Translator):
                 return f"({val[0]}, {envr['<rng>'][0]})"
             return result_of0(envr, val, where)
         def result_of0(envr, val, where):
+            if result == "outparams":
+                # a function that works through its `&mut [f64]` parameters and returns nothing: the value of those parameters after the call
+                if val is not None and val[1] != "unit": raise self.fail(where, "result='outparams': the function must not return a value")
+                if not outparams: raise self.fail(where, "result='outparams': no `&mut` parameter")
+                s = "(" + ", ".join(envr[q][0] for q in outparams) + ")" if len(outparams) != 1 else envr[outparams[0]][0]
+                self.ret_type = ("tup", tuple(envr[q][1] for q in outparams)) if len(outparams) != 1 else envr[outparams[0]][1]
+                return s
             if result == "fields":
                 s = "(" + ", ".join(envr[f][0] for f in fields) + ")" if len(fields) != 1 else envr[fields[0]][0]
                 self.ret_type = ("tup", tuple(envr[f][1] for f in fields)) if len(fields) != 1 else envr[fields[0]][1]
@@ -2908,7 +3003,8 @@ class LoopTranslator(Translator):
             if not hasattr(self.cfg, "mut_methods"): self.cfg.mut_methods = set()
             self.cfg.mut_methods.add(name)
         argt = [t for _, t in binders]
-        self.cfg.defs[key] = (coq_name + " O" + "".join(f" {c}" for c, _ in callb), argt[len(fields):] if fn.has_self else argt, self.ret_type, self.partial, [c for c, _ in callb], list(fields))
+        if result != "outparams":      # (an 'outparams' function is not registered: a call of it from translated code stays refused)
+            self.cfg.defs[key] = (coq_name + " O" + "".join(f" {c}" for c, _ in callb), argt[len(fields):] if fn.has_self else argt, self.ret_type, self.partial, [c for c, _ in callb], list(fields))
         self.last_fields = fields
         return Translated(coq_name, text, sig, mode, list(self.used_calls), list(self.notes))
 
@@ -3180,6 +3276,35 @@ _L3 = [   # third round: (Rust, expected Gallina body | None, fragment of the re
      None, {"struct_fields": {"M": [("r", "i"), ("c", "i"), ("d", ("list", "f"))]}, "param_types": {"Self": ("struct", "M")}},
      {"owner": "M", "window": ("M", "index_mut"), "result": "fields", "closure_assign": True}),
 ]
+_L4 = [   # fourth round (same format as _L3)
+    ('fn f(x: f64) -> f64 { if x.is_infinite() { x } else { x / 2. } }', '(if rs_is_infinite O (x) then x else div O (x) (two O))', None, {"float_classify": True}, {}),
+    ('fn f(x: f64) -> bool { x.is_infinite() }', None, 'method `.is_infinite`', {}, {}),
+    ('struct V { v: Vec<f64> } impl V { fn f(&self, i: usize) -> f64 { self[i] + 1. } }', 'let* g1 := rs_get (self_) (i) in Some (add O (g1) (one O))', None,
+     {"newtype_self": {"V": ("list", "f")}, "newtype_index": True}, {"owner": "V"}),
+    ('struct V { v: Vec<f64> } impl V { fn f(&self, i: usize) -> f64 { self[i] + 1. } }', None, '`self[..]` is only supported', {"newtype_self": {"V": ("list", "f")}}, {"owner": "V"}),
+    ('fn f(w: &[f64]) -> bool { w.iter().all(|&x| x == 1.) }', 'forallb (fun x => eqb O (x) (one O)) (w)', None, {"iter_all": True}, {}),
+    ('fn f(w: &[f64]) -> bool { w.iter().all(|&x| x == 1.) }', None, 'method `.all`', {}, {}),
+    ('fn f(w: &[f64], v: &[f64]) -> bool { w.iter().all(|&x| x == v[0]) }', None, 'a closure to bool that cannot panic', {"iter_all": True}, {}),
+    ('struct G { fam: Fam, a: f64 } impl G { fn f(&self, y: &[f64]) -> f64 { self.fam.dev(y) * self.a } }', 'let* r1 := (dev_ (y)) in Some (mul O (r1) (a))', None,
+     {"calls": {"<fam.dev>": ("dev_", [("list", "f")], ("opt", "f"))}, "field_methods": {("fam", "dev"): "<fam.dev>"}}, {"owner": "G", "self_fields": ["a"]}),
+    ('struct G { fam: Fam, a: f64 } impl G { fn f(&self, y: &[f64]) -> f64 { self.fam.dev(y) * self.a } }', None, '`self.fam` is not a field the translator models', {}, {"owner": "G", "self_fields": ["a"]}),
+    ('struct G { a: f64 } impl G { fn f(&self, d: &mut [f64], c: &[f64]) { for i in 1..c.len() { d[i] += self.a * c[i]; } } }',
+     'let* d := rs_fold_opt (fun d i => let* g1 := rs_get (c) (i) in let* g2 := rs_get (d) (i) in let* l3 := rs_set (d) (i) (add O (g2) (mul O (a) (g1))) in let d := l3 in Some d) (rs_range_excl (1%Z) (rs_len (c))) d in Some (d)',
+     None, {}, {"owner": "G", "result": "outparams"}),
+    ('struct G { a: f64 } impl G { fn f(&self, d: &mut [f64]) { d[0] = self.a; } }', None, 'type `mut[f64]`', {}, {"owner": "G"}),
+    ('struct G { d: Option<f64>, p: Option<usize> } impl G { fn dev(&self) -> Result<f64, &str> { if let Some(x) = self.d { Ok(x) } else { Err("no") } } '
+     'fn f(&self) -> Result<f64, &str> { let x = self.dev()?; Ok(x + self.p.unwrap() as f64) } }',
+     'match (dev O (d) (p)) with Some q1 => let x := q1 in let* u2 := p in Some (Some (add O (x) (ofZ O (u2)))) | None => Some (None) end', None, {}, {"owner": "G", "pre": [("dev", "value")], "try_op": True}),
+    ('fn f(x: Option<f64>) -> Option<f64> { let y = x?; Some(y) }', None, '`?` is outside the subset', {}, {}),
+    ('fn f(x: Option<f64>, w: &[f64]) -> Option<f64> { let s: f64 = w.iter().map(|v| v + x?).sum(); Some(s) }', None, '`?` inside a closure', {}, {"try_op": True}),
+    ('fn f(x: Option<Vec<f64>>) -> f64 { x.as_ref().unwrap()[0] }', 'let* u1 := x in let* g2 := rs_get (u1) (0%Z) in Some (g2)', None, {"option_as_ref": True}, {}),
+    ('struct M { r: usize, d: Vec<f64> } impl M { fn f(&self) -> f64 { let (l, k) = self.lu(); l.d.prod() * k as f64 } }',
+     "let* r1 := (lu_ ((r, d)) ) in let '((l_r, l_d), k) := r1 in Some (mul O ((prod_ (l_d) )) (ofZ O (k)))", None,
+     {"struct_fields": {"M": [("r", "i"), ("d", ("list", "f"))]}, "param_types": {"Self": ("struct", "M")},
+      "abstract_self_methods": {"lu": ("lu_", [], ("opt", ("tup", (("struct", "M"), "si"))))}, "list_methods": {"prod": ("prod_", [], "f")}}, {"owner": "M"}),
+    ('struct M { r: usize, d: Vec<f64> } impl M { fn f(&self) -> f64 { let (l, k) = self.lu(); 0. } }', None, '`self.lu(..)` is outside the subset',
+     {"struct_fields": {"M": [("r", "i"), ("d", ("list", "f"))]}, "param_types": {"Self": ("struct", "M")}}, {"owner": "M"}),
+]
 
 
 def selftest():
@@ -3218,25 +3343,28 @@ def selftest():
                 raise Unsupported(f"rsexpr self-test (loops): `{rust}` was refused with an unexpected message: {ex}")
             continue
         raise Unsupported(f"rsexpr self-test (loops): `{rust}` is outside the subset but was translated")
-    for rust, want, frag, attrs, how in _L3:
+    for rust, want, frag, attrs, how in _L3 + _L4:
         cfg = Config(param_types=dict(attrs.get("param_types") or {}))
         for k, v in attrs.items():
-            if k != "param_types": setattr(cfg, k, dict(v) if isinstance(v, dict) else v)
+            if k == "calls": cfg.calls.update(v)
+            elif k != "param_types": setattr(cfg, k, dict(v) if isinstance(v, dict) else v)
         Parser.closure_assign = how.get("closure_assign", False)
+        Parser.try_op = how.get("try_op", False)
         try:
             tr = LoopTranslator(Module("selftest.rs", rust), cfg)
             if "enum" in how: tr.enum_decl(how["enum"])
             if "window" in how: tr.window(*how["window"])
             for nm, res in how.get("pre", []): tr.function(how.get("owner"), nm, nm, result=res)
-            got = tr.function(how.get("owner"), how.get("name", "f"), "f", macro=how.get("macro"), result=how.get("result", "value")).text.split(":=\n  ", 1)[1].rstrip(".")
+            got = tr.function(how.get("owner"), how.get("name", "f"), "f", macro=how.get("macro"), result=how.get("result", "value"),
+                              **({"self_fields": how["self_fields"]} if "self_fields" in how else {})).text.split(":=\n  ", 1)[1].rstrip(".")
         except Unsupported as ex:
             if frag is None or frag not in str(ex) or not re.search(r"selftest\.rs:\d+:\d+", str(ex)):
-                raise Unsupported(f"rsexpr self-test (third round): `{rust}` was refused with an unexpected message: {ex}")
+                raise Unsupported(f"rsexpr self-test (third / fourth round): `{rust}` was refused with an unexpected message: {ex}")
             continue
-        finally: Parser.closure_assign = False
+        finally: Parser.closure_assign = False; Parser.try_op = False
         if frag is not None: raise Unsupported(f"rsexpr self-test (third round): `{rust}` is outside the subset but was translated")
         if got != want: raise Unsupported(f"rsexpr self-test (third round): `{rust}` rendered as `{got}`, expected `{want}`")
-    return len(_POS) + len(_POS_SELF) + len(_NEG) + len(_LPOS) + len(_LPOS_CFG) + len(_LNEG) + len(_L3)
+    return len(_POS) + len(_POS_SELF) + len(_NEG) + len(_LPOS) + len(_LPOS_CFG) + len(_LNEG) + len(_L3) + len(_L4)
 
 
 
